@@ -140,7 +140,8 @@ def features(chunks: list[bytes], plan: Plan) -> dict[str, Any]:
 def execute(scn: dict[str, Any]) -> dict[str, Any]:
     contents, chunks = materialize(scn)
     plan = [tuple(op) for op in scn["plan"]]
-    res = L.run_reader(scn["kind"], contents, chunks, plan, scn["policy"], scn.get("lead", "feeder"))
+    res = L.run_reader(scn["kind"], contents, chunks, plan, scn["policy"], scn.get("lead", "feeder"),
+                       scn.get("via", "read"))
     res["scn"] = scn
     res["feat"] = features(chunks, plan)
     res["lens"] = [len(c) for c in contents]
@@ -222,6 +223,14 @@ def short_scenarios(kind: str, msgs: list[bytes], src: str, tier: str, with_alls
     # stream stays open
     for pol in pol_all:
         add("open-end", [("F", n), ("Z",)], pol, "reader")
+    if timed:
+        # the same timeout scenarios with the time limit owned by the caller (wait_for around read() / request())
+        k = 0
+        for scn in list(out):
+            if scn["fam"] in ("timeout1", "timeout2", "gap", "eof-after-timeout") and all(scn["policy"]):
+                k += 1
+                if tier == "thorough" or scn["fam"] != "gap" or k % 3 == 0:
+                    out.append({**scn, "fam": scn["fam"] + "/caller-owned", "via": ("outer-read", "outer-request")[k % 2]})
     return out
 
 
@@ -614,7 +623,7 @@ def compare_fake_with_kernel(rep: Report, results: list[dict[str, Any]], base: i
 def nontrivial_id(res: dict[str, Any]) -> str:
     scn = res["scn"]
     key = json.dumps([res["kind"], scn.get("src", "ref"), res["lens"] if len(res["lens"]) < 8 else scn.get("msgs"),
-                      scn.get("plan", scn.get("actions", scn.get("mode"))), scn.get("policy"), scn.get("lead")],
+                      scn.get("plan", scn.get("actions", scn.get("mode"))), scn.get("policy"), scn.get("lead"), scn.get("via")],
                      default=str, sort_keys=True)
     return hashlib.sha1(key.encode()).hexdigest()[:16]
 
